@@ -2,15 +2,15 @@ package main
 
 // kind=rate (property C20): the two rate limiters of plugins/ratelimit.
 //
-//   lim=native-log  the composition native/operator.go is made of
+//   op=native-log  the composition native/operator.go is made of
 //                   (GroupBy ; MergeMap(WindowWhen(boundary) ; Map(Take n) ; MergeAll)), built from
 //                   the real core operators with a boundary the harness fires by hand (NewRateLimiter
 //                   itself hard-wires ro.Interval: there is no seam for a logical tick). Output must
 //                   EQUAL the Lean model `native`.
-//   lim=native-rt   the real roratelimit.NewRateLimiter in real time over a seeded timeline. The
+//   op=native-rt   the real roratelimit.NewRateLimiter in real time over a seeded timeline. The
 //                   harness records what it emitted (in=k:v:t0:t1) and what passed (obs=k:v@ts, term=)
 //                   in the case line after the run; the Lean driver evaluates the proved acceptor.
-//   lim=ulule       the real ulule operator over a deterministic in-memory limiter.Store whose
+//   op=ulule       the real ulule operator over a deterministic in-memory limiter.Store whose
 //                   answers are a function of the call history; output and answers must EQUAL the model.
 
 import (
@@ -211,10 +211,25 @@ func (h *tickHub) fire(i int) {
 	}
 }
 
+// a pass-through that calls f when its source completes, before forwarding the completion
+func tapComplete[T any](src ro.Observable[T], f func()) ro.Observable[T] {
+	return ro.NewUnsafeObservableWithContext(func(ctx context.Context, dest ro.Observer[T]) ro.Teardown {
+		sub := src.SubscribeWithContext(ctx, ro.NewObserverWithContext(
+			dest.NextWithContext,
+			dest.ErrorWithContext,
+			func(ctx context.Context) {
+				f()
+				dest.CompleteWithContext(ctx)
+			},
+		))
+		return sub.Unsubscribe
+	})
+}
+
 // ---------- running ----------
 
 func runRateCase(c *Case) string {
-	switch c.get("lim", "?") {
+	switch c.get("op", "?") {
 	case "native-log":
 		return runRateLog(c)
 	case "native-rt":
@@ -236,6 +251,24 @@ func runRateLog(c *Case) string {
 	rec := newRlRec()
 	groupIdx := map[int]int{}
 	src := &rlSource{sync: c.get("mode", "sync") == "sync"}
+	// latetick=all: a schedule in which the tickers fire while the completion of the source is being
+	// processed, between WindowWhen closing its last window and completing its destination. The two
+	// steps run on the source's goroutine with no user code in between, so the tick (which in
+	// production comes from the Interval goroutine) is delivered re-entrantly: every window is
+	// observed through a pass-through tap whose completion callback fires the tick of every group
+	// still subscribed. The tap sees the completion of a window only while the window's Take is
+	// still listening (quota not used up), so the late tick is injectable for those groups.
+	inEnd, busy := false, false
+	lateTick := c.get("latetick", "-") == "all"
+	onWindowComplete := func() {
+		if lateTick && inEnd && !busy {
+			busy = true
+			for i := 0; i < len(groupIdx); i++ {
+				hub.fire(i)
+			}
+			busy = false
+		}
+	}
 	src.play = func(dest ro.Observer[rlItem], ctx context.Context) {
 		for _, ev := range tl {
 			if ev.tick {
@@ -249,7 +282,9 @@ func runRateLog(c *Case) string {
 			}
 			dest.NextWithContext(ctx, rlItem{ev.k, ev.v})
 		}
+		inEnd = true
 		emitEnd(dest, ctx, end)
+		inEnd = false
 	}
 	// plugins/ratelimit/native/operator.go:29-40 with the Interval replaced by the hub
 	obs := ro.Pipe2(
@@ -258,7 +293,12 @@ func runRateLog(c *Case) string {
 		ro.MergeMap(
 			ro.PipeOp3(
 				ro.WindowWhen[rlItem](hub.observable()),
-				ro.Map(ro.Take[rlItem](int64(n))),
+				ro.Map(func(w ro.Observable[rlItem]) ro.Observable[rlItem] {
+					if lateTick {
+						w = tapComplete(w, onWindowComplete)
+					}
+					return ro.Take[rlItem](int64(n))(w)
+				}),
 				ro.MergeAll[rlItem](),
 			),
 		),
@@ -268,7 +308,7 @@ func runRateLog(c *Case) string {
 		src.playNow()
 	}
 	sub.Unsubscribe()
-	return fmt.Sprintf("res %s out=%s late=%d", c.id, rec.outString(), rec.late)
+	return fmt.Sprintf("res %s out=%s", c.id, rec.outString())
 }
 
 func waitUntil(start time.Time, targetUs int64) {
@@ -348,7 +388,7 @@ func runRateRT(c *Case) string {
 	}
 	c.set("obs", joinOrDash(obsParts))
 	c.set("term", term)
-	c.set("late", strconv.Itoa(late))
+	c.set("after", strconv.Itoa(late)) // notifications that reached the recorder after the terminal
 	// the implementation's side of the tie is the observation itself; the verdict is the Lean acceptor's
 	return fmt.Sprintf("res %s accept=t why=-%s", c.id, flag)
 }
@@ -428,7 +468,7 @@ func runRateUlule(c *Case) string {
 		src.playNow()
 	}
 	sub.Unsubscribe()
-	return fmt.Sprintf("res %s out=%s ans=%s late=%d", c.id, rec.outString(), joinOrDash(store.answers), rec.late)
+	return fmt.Sprintf("res %s out=%s ans=%s", c.id, rec.outString(), joinOrDash(store.answers))
 }
 
 // ---------- generation ----------
@@ -555,7 +595,10 @@ func genRate(tier string, seed int64, only string) []*Case {
 			for _, n := range []int{0, 1, 2} {
 				for _, end := range ends {
 					for _, mode := range modes {
-						emit("lim", "native-log", "n", strconv.Itoa(n), "mode", mode, "end", end, "tl", tlString(tl, false))
+						emit("op", "native-log", "n", strconv.Itoa(n), "mode", mode, "end", end, "latetick", "-", "tl", tlString(tl, false))
+						if end != "-" && len(tl) <= 3 {
+							emit("op", "native-log", "n", strconv.Itoa(n), "mode", mode, "end", end, "latetick", "all", "tl", tlString(tl, false))
+						}
 					}
 				}
 			}
@@ -566,7 +609,11 @@ func genRate(tier string, seed int64, only string) []*Case {
 		}
 		for i := 0; i < nr; i++ {
 			tl := randomLogTimeline(r, 5+r.Intn(40), 1+r.Intn(4))
-			emit("lim", "native-log", "n", strconv.Itoa(r.Intn(5)), "mode", modes[r.Intn(2)], "end", ends[r.Intn(3)], "tl", tlString(tl, false))
+			lt := "-"
+			if r.Intn(5) == 0 {
+				lt = "all"
+			}
+			emit("op", "native-log", "n", strconv.Itoa(r.Intn(5)), "mode", modes[r.Intn(2)], "end", ends[r.Intn(3)], "latetick", lt, "tl", tlString(tl, false))
 		}
 	}
 
@@ -582,7 +629,7 @@ func genRate(tier string, seed int64, only string) []*Case {
 					for _, failAt := range []int{-1, 0, 2} {
 						for _, end := range ends {
 							for _, mode := range modes {
-								emit("lim", "ulule", "store", fmt.Sprintf("%d/%d/%d", m, p, failAt), "mode", mode, "end", end, "tl", tlString(tl, true))
+								emit("op", "ulule", "store", fmt.Sprintf("%d/%d/%d", m, p, failAt), "mode", mode, "end", end, "tl", tlString(tl, true))
 							}
 						}
 					}
@@ -604,7 +651,7 @@ func genRate(tier string, seed int64, only string) []*Case {
 			if r.Intn(4) == 0 {
 				failAt = r.Intn(ln + 2)
 			}
-			emit("lim", "ulule", "store", fmt.Sprintf("%d/%d/%d", r.Intn(4), 1+r.Intn(9), failAt), "mode", modes[r.Intn(2)], "end", ends[r.Intn(3)], "tl", tlString(tl, true))
+			emit("op", "ulule", "store", fmt.Sprintf("%d/%d/%d", r.Intn(4), 1+r.Intn(9), failAt), "mode", modes[r.Intn(2)], "end", ends[r.Intn(3)], "tl", tlString(tl, true))
 		}
 	}
 
@@ -634,7 +681,7 @@ func genRate(tier string, seed int64, only string) []*Case {
 			if r.Intn(2) == 0 {
 				mode = "async"
 			}
-			emit("lim", "native-rt", "profile", profile, "n", strconv.Itoa(n), "w", strconv.Itoa(w), "slack", "0", "mode", mode, "end", end, "tl", tlString(tl, true))
+			emit("op", "native-rt", "profile", profile, "n", strconv.Itoa(n), "w", strconv.Itoa(w), "slack", "0", "mode", mode, "end", end, "tl", tlString(tl, true))
 		}
 	}
 	return cases
